@@ -543,4 +543,31 @@ if bad:
     print("REPRODUCED"); sys.exit(1)
 sys.exit(0)
 '''
+    if task["fn"] == "t_fitparams":
+        v = g("v_hertz_para", 0.0)
+        return common.REPLAY_HEAD + f'''
+import tempfile, pathlib, shutil
+import nanite.cli.profile as prof
+from nanite.model import models_available
+d = pathlib.Path(tempfile.mkdtemp(prefix="c19_")); path = d / "cli_profile.cfg"
+bad = []
+for mk in sorted(models_available):
+    if path.exists(): path.unlink()
+    p = prof.Profile(path=path); p["model_key"] = mk
+    defaults = models_available[mk].get_parameter_defaults(); names = list(defaults)
+    for v in ({v!r}, 0.0, 123.5):
+        q = prof.Profile(path=path)
+        q["fit param %s value" % names[0]] = v
+        q["fit param %s vary" % names[-1]] = not defaults[names[-1]].vary
+        got = prof.Profile(path=path).get_fit_params()
+        if got[names[0]].value != v: bad.append("%s.%s: stored %r, returned %r" % (mk, names[0], v, got[names[0]].value))
+        if got[names[-1]].vary != (not defaults[names[-1]].vary): bad.append("%s.%s vary" % (mk, names[-1]))
+        for nm in names[1:-1]:
+            if got[nm].value != defaults[nm].value or got[nm].vary != defaults[nm].vary: bad.append("%s.%s changed" % (mk, nm))
+shutil.rmtree(d, ignore_errors=True)
+print({ob["name"]!r}, bad[:4])
+if bad:
+    print("REPRODUCED"); sys.exit(1)
+sys.exit(0)
+'''
     return None
